@@ -377,6 +377,38 @@ pub fn json_docs() -> Vec<String> {
 }
 
 
+// ------------------------------------------------------------------------------ units outside the database
+
+/// Numbers whose unit is not a database entry: the library's own DEFAULT_UNIT (what
+/// `get_unit_or_default` returns for an unknown name) and units a caller builds from the public
+/// fields of `Unit` (no ids, empty / blank / non-ASCII / quote-carrying ids, no dimensions,
+/// zero / NaN scale) — bare and inside a list, a dict and a grid.
+fn exotic_unit_values() -> Vec<Value> {
+    use libhaystack::units::{get_unit_or_default, Unit};
+    use libhaystack::val::{Dict, Grid, Number};
+    let mut units: Vec<&'static Unit> = vec![get_unit_or_default("no-such-unit"), get_unit_or_default("")];
+    for ids in [vec![], vec![""], vec![" "], vec!["é"], vec!["a b", "\""], vec!["x", ""], vec!["kW", "kW"], vec!["\n"], vec!["_"]] {
+        for (scale, dims) in [(1.0, false), (0.0, true), (f64::NAN, false)] {
+            let u = Unit { quantity: if dims { Some("q".into()) } else { None }, ids: ids.iter().map(|s| s.to_string()).collect(), dimensions: if dims { Some(Default::default()) } else { None }, scale, offset: 0.0 };
+            units.push(Box::leak(Box::new(u)));
+        }
+    }
+    let mut out = vec![];
+    for u in units {
+        for x in [42.0, -0.0, f64::NAN, f64::INFINITY, 1e21] {
+            let n = Value::Number(Number { value: x, unit: Some(u) });
+            out.push(n.clone());
+            out.push(Value::make_list(vec![n.clone(), Value::make_str("s")]));
+            let mut d = Dict::new();
+            d.insert("dis".into(), n.clone());
+            d.insert("curVal".into(), n.clone());
+            out.push(Value::make_dict(d.clone()));
+            out.push(Value::make_grid(Grid::make_from_dicts(vec![d])));
+        }
+    }
+    out
+}
+
 // ------------------------------------------------------------------------------ writer faults
 
 /// a writer driven by a script: per call it accepts everything, at most `limit` bytes, fails with
@@ -462,7 +494,7 @@ fn writer_case(v: &V) -> Verdict {
 
 pub fn run(tier: Tier) -> i32 {
     let mut run = Run::new("C10", tier, "exploration");
-    run.rule = "U_all: every String field over 27 strings (empty, non-ASCII first, multi-char uppercase, controls, 300 chars) in every position; NaN/INF with units; date/time/timestamp extremes; ill-shaped grids; every display tag with every kind; nesting chains of every depth 1..64; plus the image of the Zinc decoder on every string <= 4/5 over the 27-byte token alphabet and of the Hayson decoder on ~10^4 kind-tagged documents; each through to_zinc_string, typed ToZinc, serde_json to_string/to_vec/to_value, Display, Debug, Display and Debug under ~125 format specifications (width 0-300, fill, the three alignments, precision 0-40, sign, alternate, zero padding; Value, Date, Time, DateTime, Ref, Symbol, Unit, HaystackKind), Dict::dis, dict_to_dis; plus encoding into a caller's writer (ToZinc::to_zinc, serde_json::to_writer) under writer scripts — 1 / 2 / 3 / 7 bytes per call, Interrupted every 2nd / 3rd call, failure or 'accepts nothing' at each of the first 40 calls — for a kind-complete pool: short writes and Interrupted lose nothing, a failure is reported as an error with a prefix of the text written, no panic, no endless loop; non-trivial = distinct value".into();
+    run.rule = "U_all: every String field over 27 strings (empty, non-ASCII first, multi-char uppercase, controls, 300 chars) in every position; NaN/INF with units; numbers whose unit is not a database entry (the library's DEFAULT_UNIT, caller-built units with no / empty / blank / non-ASCII ids, no dimensions, zero or NaN scale); date/time/timestamp extremes; ill-shaped grids; every display tag with every kind; nesting chains of every depth 1..64; plus the image of the Zinc decoder on every string <= 4/5 over the 27-byte token alphabet and of the Hayson decoder on ~10^4 kind-tagged documents; each through to_zinc_string, typed ToZinc, serde_json to_string/to_vec/to_value, Display, Debug, Display and Debug under ~125 format specifications (width 0-300, fill, the three alignments, precision 0-40, sign, alternate, zero padding; Value, Date, Time, DateTime, Ref, Symbol, Unit, HaystackKind), Dict::dis, dict_to_dis; plus encoding into a caller's writer (ToZinc::to_zinc, serde_json::to_writer) under writer scripts — 1 / 2 / 3 / 7 bytes per call, Interrupted every 2nd / 3rd call, failure or 'accepts nothing' at each of the first 40 calls — for a kind-complete pool: short writes and Interrupted lose nothing, a failure is reported as an error with a prefix of the text written, no panic, no endless loop; non-trivial = distinct value".into();
     run.assume("timestamps stay two days inside chrono's representable range: at the very limits chrono itself panics computing the local time (trusted-base limitation, not libhaystack code)");
     run.assume("Display is driven through write! (an Err from Display is 'an error', which the statement allows; `to_string()` would turn it into a panic of the caller)");
     crate::engine::quiet_panics();
@@ -538,6 +570,18 @@ pub fn run(tier: Tier) -> i32 {
         }
     });
     run.absorb(l);
+    // numbers whose unit is not a database entry
+    {
+        let ev = exotic_unit_values();
+        let l = par_for_stack(ev.len(), stack, |i, local| {
+            local.eval();
+            local.count("exotic-unit-values");
+            if let Err((e, p)) = encode_all(&ev[i]) {
+                local.fail(&format!("panic:{e}:number-with-a-unit-outside-the-database"), json!({"exotic_unit": i}), format!("{p} (value {:?})", format!("{:?}", ev[i]).chars().take(300).collect::<String>()));
+            }
+        });
+        run.absorb(l);
+    }
     // writer faults: encoding into a caller's writer (short writes, Interrupted, failure or
     // "accepts nothing" at every one of the first 40 calls)
     {
@@ -577,6 +621,13 @@ pub fn run(tier: Tier) -> i32 {
 
 pub fn replay(case: &J) -> Verdict {
     let v = from_json(&case["value"]);
+    if let Some(i) = case["exotic_unit"].as_u64() {
+        let ev = exotic_unit_values();
+        return match ev.get(i as usize).map(encode_all) {
+            Some(Err((e, p))) => Err((format!("panic:{e}:number-with-a-unit-outside-the-database"), p)),
+            _ => Ok(()),
+        };
+    }
     if case["writer"] == true {
         return writer_case(&v).map_err(|(s, d)| (format!("{s}:{}", shape_sig(&v)), d));
     }
